@@ -695,3 +695,233 @@ Proof.
   intros m' H. apply C14_model_op_ok; [reflexivity | apply uniq_simple, uniq_b_sound; reflexivity | exact H | reflexivity].
 Qed.
 Print Assumptions C14_model_op_ok_example_applied.
+
+(** ---- non-vacuity of the hypotheses (audit) ---- *)
+(** The 6-node model [ex_become] (private parents [_k], [_s]; [a]; [n]; [u]; child [c]) is acyclic,
+    structurally consistent, [simple], and [u] is not reachable from [n]. *)
+Example C14_audit_ex_become_acyclic : acyclic (s_edges ex_become).
+Proof.
+  intros u v p Hin. simpl in Hin.
+  repeat (destruct Hin as [Hin|Hin];
+          [inversion Hin; subst; apply (become_hazard_reach 0 _ _ ex_become); vm_compute; reflexivity|]).
+  destruct Hin.
+Qed.
+
+Example C14_audit_ex_become_closed : Closed ex_become.
+Proof.
+  constructor.
+  - unfold names; simpl. repeat constructor; simpl; intuition discriminate.
+  - intros e He. simpl in He. unfold names; simpl.
+    repeat (destruct He as [He|He]; [subst e; simpl; tauto|]). destruct He.
+  - intros k v Hk. simpl in Hk. unfold names; simpl.
+    repeat (destruct Hk as [Hk|Hk]; [inversion Hk; subst; tauto|]). destruct Hk.
+Qed.
+
+Example C14_audit_ex_become_simple_noreach :
+  simple (s_edges ex_become) /\ ~ reach (s_edges ex_become) "n" "u".
+Proof.
+  split; [apply uniq_simple, uniq_b_sound; reflexivity|].
+  apply (become_hazard_reach 0 _ _ ex_become). vm_compute. reflexivity.
+Qed.
+
+(** removal of [n] from [ex_become] (takes the private parent [_k] along, keeps [_s] and [c]) *)
+Example C14_remove_acyclic_nonvacuous :
+  acyclic (s_edges ex_become)
+  /\ names (remove_node 6 ex_become "n") = ["_s"; "a"; "u"; "c"]
+  /\ acyclic (s_edges (remove_node 6 ex_become "n")).
+Proof.
+  split; [exact C14_audit_ex_become_acyclic|]. split; [vm_compute; reflexivity|].
+  apply C14_remove_acyclic, C14_audit_ex_become_acyclic.
+Qed.
+
+Example C14_remove_keeps_others_nonvacuous :
+  lookup "c" (s_nodes (remove_node 6 ex_become "n")) = Some (st0 None true false "c")
+  /\ lookup "c" (s_nodes ex_become) = Some (st0 None true false "c").
+Proof.
+  assert (H : lookup "c" (s_nodes (remove_node 6 ex_become "n")) = Some (st0 None true false "c"))
+    by (vm_compute; reflexivity).
+  split; [exact H | exact (C14_remove_keeps_others _ _ _ _ _ H)].
+Qed.
+
+(** a new node [z] with the two parents [c] and [a] on top of the six edges of [ex_become] *)
+Example C14_new_node_acyclic_nonvacuous :
+  let es := s_edges ex_become in
+  let es' := (es ++ [("c", "z", PInt 0); ("a", "z", PInt 1)])%list in
+  let nodes := names ex_become in
+  (forall e, In e es -> In (e_src e) nodes /\ In (e_dst e) nodes) /\ ~ In "z" nodes
+  /\ (forall e, In e es' -> In e es \/ (In (e_src e) nodes /\ e_dst e = "z"))
+  /\ acyclic es /\ acyclic es'.
+Proof.
+  intros es es' nodes.
+  assert (H1 : forall e, In e es -> In (e_src e) nodes /\ In (e_dst e) nodes)
+    by (exact (cl_edges _ C14_audit_ex_become_closed)).
+  assert (H2 : ~ In "z" nodes) by (unfold nodes, names; simpl; intuition discriminate).
+  assert (H3 : forall e, In e es' -> In e es \/ (In (e_src e) nodes /\ e_dst e = "z")).
+  { intros e He. unfold es' in He. apply in_app_or in He. destruct He as [He|He]; [now left|right].
+    simpl in He. destruct He as [He|[He|[]]]; subst e; unfold nodes, names; simpl; tauto. }
+  split; [exact H1|]. split; [exact H2|]. split; [exact H3|]. split; [exact C14_audit_ex_become_acyclic|].
+  exact (C14_new_node_acyclic es es' nodes "z" H1 H2 H3 C14_audit_ex_become_acyclic).
+Qed.
+
+(** become [n] <- [u] on [ex_become]: all the hypotheses of the become theorems together *)
+Example C14_become_takes_state_nonvacuous :
+  exists m' st', update_node ex_become "n" "u" = Ok m' /\ "n" <> "u"
+    /\ lookup "n" (s_nodes m') = Some st' /\ lookup "u" (s_nodes ex_become) = Some st'
+    /\ st' = st0 None true false "u".
+Proof.
+  eexists. eexists. split; [vm_compute; reflexivity|]. split; [discriminate|].
+  split; [vm_compute; reflexivity|]. split; vm_compute; reflexivity.
+Qed.
+
+Example C14_become_acyclic_nonvacuous :
+  exists m', update_node ex_become "n" "u" = Ok m' /\ Closed ex_become /\ "n" <> "u"
+    /\ simple (s_edges ex_become) /\ acyclic (s_edges ex_become) /\ ~ reach (s_edges ex_become) "n" "u"
+    /\ acyclic (s_edges m') /\ Closed m' /\ ~ In "u" (names m')
+    /\ (forall c p, In ("n", c, p) (s_edges m') <-> In ("n", c, p) (s_edges ex_become))
+    /\ (forall q p, In (q, "n", p) (s_edges m') <-> In (q, "u", p) (s_edges ex_become)).
+Proof.
+  destruct C14_audit_ex_become_simple_noreach as [Hs Hr].
+  assert (Hnu : "n" <> "u") by discriminate.
+  eexists. split; [vm_compute; reflexivity|].
+  match goal with |- context [Closed ex_become /\ _] => idtac end.
+  set (m' := {| s_nodes := _ |}).
+  assert (H : update_node ex_become "n" "u" = Ok m') by (vm_compute; reflexivity).
+  split; [exact C14_audit_ex_become_closed|]. split; [exact Hnu|]. split; [exact Hs|].
+  split; [exact C14_audit_ex_become_acyclic|]. split; [exact Hr|].
+  split; [exact (C14_become_acyclic _ _ _ _ H C14_audit_ex_become_acyclic Hr)|].
+  split; [exact (C14_become_closed _ _ _ _ C14_audit_ex_become_closed H Hnu)|].
+  split; [exact (C14_become_replacement_gone _ _ _ _ H)|].
+  exact (C14_become_edges_acyclic _ _ _ _ H Hs C14_audit_ex_become_acyclic Hr).
+Qed.
+
+(** the parameter_names setter on [ex_become] *)
+Example C14_set_parameter_names_nonvacuous :
+  exists m', set_parameter_names ex_become ["c"; "a"] = Ok m'
+    /\ parameter_names ex_become = ["a"] /\ parameter_names m' = ["a"; "c"].
+Proof. eexists. split; vm_compute; [reflexivity | split; reflexivity]. Qed.
+
+(** one step on two live models (original, copy): a state write to the copy leaves the original *)
+Example C14_step_frame_nonvacuous :
+  match run [empty_net] (ex_base ++ [ECopy 0])%list with
+  | Ok ms =>
+      let o := ESetFlag 1 "b" FUsesMeta true in
+      exists ms', step ms o = Ok ms' /\ writes_to o 0 = false /\ 0 < List.length ms
+        /\ nth_error ms' 0 = nth_error ms 0
+        /\ match nth_error ms' 1, nth_error ms 1 with
+           | Some x, Some y => snet_eqb x y = false
+           | _, _ => False
+           end
+  | Err _ => False
+  end.
+Proof. vm_compute. eexists. split; [reflexivity|]. repeat split; auto. Qed.
+
+Example C14_copy_equals_source_nonvacuous :
+  match run [empty_net] ex_base with
+  | Ok ms => exists m, nth_error ms 0 = Some m /\ step ms (ESaveLoad 0) = Ok (ms ++ [m])%list /\ s_edges m <> []
+  | Err _ => False
+  end.
+Proof. vm_compute. eexists. split; [reflexivity|]. split; [reflexivity | discriminate]. Qed.
+
+(** the two-script example: side hypotheses on the outputs and on a non-empty [W] *)
+Example C14_scripts_same_model_side_conditions_nonvacuous :
+  let W := [("t", VConst 3)] in
+  NoDup (map fst W) /\ (forall k, In k (map fst W) -> ~ In k inames)
+  /\ outputs_wf ex_m_a ["d"; observed_name "y"] /\ In ex_m_a [ex_m_a]
+  /\ same_result (generate ex_m_a ["d"; observed_name "y"] W) (generate ex_m_b ["d"; observed_name "y"] W).
+Proof.
+  intros W.
+  assert (H1 : NoDup (map fst W)) by (repeat constructor; simpl; tauto).
+  assert (H2 : forall k, In k (map fst W) -> ~ In k inames).
+  { intros k [Hk|[]]; subst k. vm_compute. intuition discriminate. }
+  assert (H3 : outputs_wf ex_m_a ["d"; observed_name "y"]).
+  { intros o [Ho|[Ho|[]]]; subst o; [left; reflexivity|right].
+    exists "y". eexists. split; [vm_compute; reflexivity|]. split; [reflexivity | left; reflexivity]. }
+  split; [exact H1|]. split; [exact H2|]. split; [exact H3|]. split; [now left|].
+  destruct C14_two_scripts_one_model as [_ [_ [_ [_ [_ [_ [_ [_ [H _]]]]]]]]]. exact (H _ W H1 H2 H3).
+Qed.
+
+(** [ex_m_a] (5 nodes, 5 edges) is [Closed] and [PD]; a new node with three distinct parents *)
+Example C14_audit_ex_m_a_closed : guards_hold [empty_net] ex_ops_a = true /\ Closed ex_m_a.
+Proof.
+  assert (Hg : guards_hold [empty_net] ex_ops_a = true) by (vm_compute; reflexivity).
+  split; [exact Hg|].
+  assert (Hr : run [empty_net] ex_ops_a = Ok [ex_m_a]) by (vm_compute; reflexivity).
+  pose proof (C14_edits_preserve_structure _ _ _ (Forall_cons _ Closed_empty (Forall_nil _)) Hg Hr) as H.
+  now inversion H.
+Qed.
+
+Example C14_audit_ex_m_a_PD : PD (s_edges ex_m_a).
+Proof.
+  apply PD_of_params_distinct.
+  destruct C14_two_scripts_one_model as [_ [_ [_ [_ [_ [_ [_ [H _]]]]]]]]. exact H.
+Qed.
+
+Example C14_add_node_positional_params_nonvacuous :
+  let o := EAddNode 0 "z" (st_op "z") ["s1"; "t"; "y"] None in
+  exists m', Closed ex_m_a /\ NoDup ["s1"; "t"; "y"] /\ step_model ex_m_a o = Ok m'
+    /\ pd_guard' ex_m_a o = true /\ pd_guard ex_m_a o = true /\ PD (s_edges ex_m_a)
+    /\ preds (s_edges m') "z" = [("s1", PInt 0); ("t", PInt 1); ("y", PInt 2)]
+    /\ PD (s_edges m').
+Proof.
+  intros o. destruct C14_audit_ex_m_a_closed as [_ Hc].
+  eexists. split; [exact Hc|]. split; [repeat constructor; simpl; intuition discriminate|].
+  split; [vm_compute; reflexivity|].
+  set (m' := {| s_nodes := _ |}).
+  assert (H : step_model ex_m_a o = Ok m') by (vm_compute; reflexivity).
+  assert (Hg : pd_guard' ex_m_a o = true) by (vm_compute; reflexivity).
+  split; [exact Hg|]. split; [vm_compute; reflexivity|]. split; [exact C14_audit_ex_m_a_PD|].
+  split; [vm_compute; reflexivity|].
+  exact (C14_step_keeps_params_distinct _ _ _ Hc Hg H C14_audit_ex_m_a_PD).
+Qed.
+
+Example C14_step_keeps_params_distinct_edge_nonvacuous :
+  let o := EAddEdge 0 "t" "d" (Some (PStr "scale")) in
+  exists m', Closed ex_m_a /\ pd_guard' ex_m_a o = true /\ pd_guard ex_m_a o = true
+    /\ step_model ex_m_a o = Ok m' /\ PD (s_edges ex_m_a)
+    /\ List.length (s_edges m') = 6 /\ PD (s_edges m').
+Proof.
+  intros o. destruct C14_audit_ex_m_a_closed as [_ Hc].
+  eexists. split; [exact Hc|]. split; [vm_compute; reflexivity|]. split; [vm_compute; reflexivity|].
+  split; [vm_compute; reflexivity|].
+  set (m' := {| s_nodes := _ |}).
+  assert (H : step_model ex_m_a o = Ok m') by (vm_compute; reflexivity).
+  split; [exact C14_audit_ex_m_a_PD|]. split; [vm_compute; reflexivity|].
+  refine (C14_step_keeps_params_distinct_result_checked _ _ _ _ H C14_audit_ex_m_a_PD). vm_compute. reflexivity.
+Qed.
+
+(** [op_ok] on a script-reachable model: become [s1] <- [s2] on [ex_m_a]; a state write and a removal *)
+Example C14_model_op_ok_reachable_nonvacuous :
+  exists m', run [empty_net] ex_ops_a = Ok [ex_m_a] /\ In ex_m_a [ex_m_a] /\ consistent_b ex_m_a = true
+    /\ step_model ex_m_a (EBecome 0 "s1" "s2") = Ok m' /\ become_hazard (EBecome 0 "s1" "s2") ex_m_a = false
+    /\ has "s2" (s_nodes m') = false
+    /\ op_ok (EBecome 0 "s1" "s2") ex_m_a m' = true.
+Proof.
+  assert (Hr : run [empty_net] ex_ops_a = Ok [ex_m_a]) by (vm_compute; reflexivity).
+  assert (Hc : consistent_b ex_m_a = true) by (vm_compute; reflexivity).
+  assert (Hh : become_hazard (EBecome 0 "s1" "s2") ex_m_a = false) by (vm_compute; reflexivity).
+  eexists. split; [exact Hr|]. split; [now left|]. split; [exact Hc|]. split; [vm_compute; reflexivity|].
+  set (m' := {| s_nodes := _ |}).
+  assert (H : step_model ex_m_a (EBecome 0 "s1" "s2") = Ok m') by (vm_compute; reflexivity).
+  split; [exact Hh|]. split; [vm_compute; reflexivity|].
+  exact (C14_model_op_ok_reachable _ _ _ _ _ Hr (or_introl eq_refl) Hc H Hh).
+Qed.
+
+Example C14_model_op_ok_setflag_remove_nonvacuous :
+  exists m1 m2,
+    step_model mo_net (ESetFlag 0 "n" FUsesMeta true) = Ok m1 /\ snet_eqb m1 mo_net = false
+    /\ step_model mo_net (ERemove 0 "n") = Ok m2 /\ names m2 = ["a"; "u"; "c"]
+    /\ op_ok (ESetFlag 0 "n" FUsesMeta true) mo_net m1 = true /\ op_ok (ERemove 0 "n") mo_net m2 = true.
+Proof.
+  eexists. eexists. split; [vm_compute; reflexivity|]. split; [vm_compute; reflexivity|].
+  split; [vm_compute; reflexivity|]. split; [vm_compute; reflexivity|].
+  split; [apply C14_model_op_ok_setflag | apply C14_model_op_ok_remove]; vm_compute; reflexivity.
+Qed.
+
+Example C14_model_op_ok_become_nonvacuous :
+  acyclic_b mo_net = true /\ simple (s_edges mo_net)
+  /\ (exists m', step_model mo_net (EBecome 0 "n" "u") = Ok m')
+  /\ become_hazard (EBecome 0 "n" "u") mo_net = false.
+Proof.
+  split; [vm_compute; reflexivity|]. split; [apply uniq_simple, uniq_b_sound; reflexivity|].
+  split; [eexists; vm_compute; reflexivity | vm_compute; reflexivity].
+Qed.
